@@ -139,24 +139,36 @@ class Check:
         self._built = False
 
     # ---------------------------------------------------------------- build
+    def harness_dir(self):
+        """the harness module; when VERIF_REPO names another tree (a scratch worktree with a seeded
+        change) a private copy of the module whose `replace` points there"""
+        if REPO == "/repo":
+            return HARNESS
+        d = os.path.join(self.scratch, "harness")
+        if not os.path.isdir(d):
+            shutil.copytree(HARNESS, d)
+            gm = open(os.path.join(d, "go.mod")).read().replace("=> /repo", "=> " + REPO)
+            open(os.path.join(d, "go.mod"), "w").write(gm)
+        return d
+
     def build(self):
         if self._built:
             return
         os.makedirs(os.path.join(ROOT, "bin"), exist_ok=True)
         gosum_src = os.path.join(REPO, "go.sum")
+        hd = self.harness_dir()
+        self.vhbin = os.path.join(self.scratch, "vh.bin")
         with open(os.path.join(ROOT, "bin", ".build.lock"), "w") as lk:
-            fcntl.flock(lk, fcntl.LOCK_EX)
-            shutil.copyfile(gosum_src, os.path.join(HARNESS, "go.sum"))
-            rc, out, err, w = run(["go", "build", "-tags", "verif", "-o", VH, "./cmd/vh"],
-                                  cwd=HARNESS, env=goenv(), timeout=900)
+            if hd == HARNESS:
+                fcntl.flock(lk, fcntl.LOCK_EX)
+            shutil.copyfile(gosum_src, os.path.join(hd, "go.sum"))
+            # private binary so that a concurrent rebuild cannot swap it under us
+            rc, out, err, w = run(["go", "build", "-tags", "verif", "-o", self.vhbin, "./cmd/vh"],
+                                  cwd=hd, env=goenv(), timeout=900)
             if rc != 0:
                 raise Inconclusive("harness does not build against %s:\n%s%s" % (REPO, out[-3000:], err[-3000:]))
-            # private copy so that a concurrent rebuild cannot swap the binary under us
-            self.vhbin = os.path.join(self.scratch, "vh.bin")
-            shutil.copyfile(VH, self.vhbin)
-            os.chmod(self.vhbin, 0o755)
         self._built = True
-        log("harness built in %.1fs" % w)
+        log("harness built in %.1fs against %s" % (w, REPO))
 
     def build_race(self):
         p = os.path.join(self.scratch, "vh-race.bin")
@@ -165,7 +177,7 @@ class Check:
         e = goenv()
         e["CGO_ENABLED"] = "1"
         rc, out, err, w = run(["go", "build", "-race", "-tags", "verif", "-o", p, "./cmd/vh"],
-                              cwd=HARNESS, env=e, timeout=900)
+                              cwd=self.harness_dir(), env=e, timeout=900)
         if rc != 0:
             raise Inconclusive("race build failed:\n%s%s" % (out[-2000:], err[-2000:]))
         return p
